@@ -31,7 +31,9 @@ class Contract:
                  raises=None, modifies=(), loops=None, locals=None, kind="verified", pure=False,
                  fresh_result=False, note="", strings="opaque", inline=False, anon_raises=False,
                  crash_inv=None, variant_checks=True, defs=None, ghost_updates=(), assume_body=(), ghost_ensures=(), reads=None,
-                 lock_wrapper=None, trusted_ensures=(), call_alias=None):
+                 lock_wrapper=None, trusted_ensures=(), call_alias=None, exit_ensures=()):
+        # clauses over the function's own local variables at exit: checked when the function is verified, invisible to callers
+        self.exit_ensures = list(exit_ensures)
         self.call_alias = dict(call_alias or {})     # callee name in the code -> contract key to use (text views)
         # clauses callers may assume although they are NOT checked against the body (environment facts,
         # open proof obligations): every use is reported in the evidence as an unchecked assumption
